@@ -107,6 +107,13 @@ def explore(ctx):
             # non-finite accumulators print as null / None
             exp = {i: (None if isinstance(w, aglib.F) and not math.isfinite(show(w)) else w) for i, w in coerced.items()}
             check_rows('%s(string)' % fn, '* | json | %s(s) as y by i' % fn, sl, lambda r: r.get('y'), exp, binary=binary)
+        # 4b. the same text padded with blanks: extraction trims it, so must every coercion
+        slp = ['{"i": %d, "s": " %s  "}\n' % (i, t) for i, (t, _isint) in enumerate(lits)]
+        exp = {i: (None if isinstance(w, aglib.F) and not math.isfinite(show(w)) else w) for i, w in coerced.items()}
+        for fn in ('sum', 'max'):
+            check_rows('%s(padded string)' % fn, '* | json | %s(s) as y by i' % fn, slp, lambda r: r.get('y'), exp, binary=binary)
+        check_rows('num(padded string)', '* | json | num(s) as y | fields i, y', slp, lambda r: r.get('y'),
+                   {i: (aggoracle.from_float(float(w)) if isinstance(w, int) else w) for i, w in enumerate(want)}, binary=binary)
     # 5. integer arithmetic: exact inside i64, a float (never a wrapped / saturated int) outside
     ints = [0, 1, -1, 2, 3, 10**9, 2**31, 2**32, 2**53, 2**62, 2**63 - 1, -2**63, -2**62, 3037000500, -3037000500, 4294967296, 9223372036854775806]
     al = []
